@@ -17,22 +17,34 @@ use std::result::Result;
 
 type Fails = Vec<(String, Value)>;
 
-fn decode<B: BoxIO>(bytes: &[u8]) -> Result<(B, u64), String> {
+pub fn decode<B: BoxIO>(bytes: &[u8]) -> Result<(B, u64), String> {
     decode_chunked::<B>(bytes, 0)
 }
 
 /// `chunk` > 0: the source hands out at most 1..=chunk bytes per read call (what a BufReader,
 /// a pipe or a socket do); a decoder must not depend on reads being filled completely.
 fn decode_chunked<B: BoxIO>(bytes: &[u8], chunk: usize) -> Result<(B, u64), String> {
-    let data = Rc::new(bytes.to_vec());
+    decode_behind::<B>(&[], bytes, chunk)
+}
+
+/// The box is not the first thing in the stream: `lead` (earlier siblings) precedes it and the
+/// reader is positioned at the box's header. The returned position is relative to the box.
+fn decode_behind<B: BoxIO>(lead: &[u8], bytes: &[u8], chunk: usize) -> Result<(B, u64), String> {
+    let mut all = lead.to_vec();
+    all.extend_from_slice(bytes);
+    let data = Rc::new(all);
     let ctl = crate::streams::Ctl::new();
     ctl.chunk.set(chunk);
     ctl.chunk_random.set(chunk > 1);
     let mut r = MonReader::new(data, ctl);
+    let at = lead.len() as u64;
     let res = panicmon::catch(|| {
+        if at > 0 {
+            r.seek(std::io::SeekFrom::Start(at))?;
+        }
         let h = BoxHeader::read(&mut r)?;
         let v = B::dec(&mut r, h.size)?;
-        let pos = r.stream_position()?;
+        let pos = r.stream_position()?.wrapping_sub(at);
         Ok::<(B, u64), mp4::Error>((v, pos))
     });
     match res {
@@ -148,6 +160,21 @@ fn check_c04<B: BoxIO>(c: &Case<B>, rng: &mut Rng) -> Fails {
             }
         }
         Err(e) => f.push(("decode_failed_from_short_reading_source".into(), json!({"max_bytes_per_read": chunk, "err": e}))),
+    }
+    // (b'') the same decode when the box is not the first one in the stream: 1-3 earlier
+    // siblings precede it (a box is decoded where it stands, not at offset 0; a limit or an
+    // end computed from the box size alone instead of start + size is right only at offset 0)
+    let mut lead = Vec::new();
+    for _ in 0..1 + rng.usize_below(3) {
+        lead.extend_from_slice(&sibling(rng));
+    }
+    match decode_behind::<B>(&lead, &stream, 0) {
+        Ok((v, pos)) => {
+            if v != c.value || pos != bytes.len() as u64 {
+                f.push(("roundtrip_value_behind_earlier_siblings".into(), json!({"bytes_before_the_box": lead.len(), "pos_relative_to_box": pos, "box_len": bytes.len(), "got": format!("{:?}", v).chars().take(400).collect::<String>(), "want": format!("{:?}", c.value).chars().take(400).collect::<String>()})));
+            }
+        }
+        Err(e) => f.push(("decode_failed_behind_earlier_siblings".into(), json!({"bytes_before_the_box": lead.len(), "err": e}))),
     }
     // (c) converse: accepted reference bytes (also in layout variants) re-encode to a fixpoint
     let mut variants: Vec<(&str, Vec<u8>)> = vec![("reference", refenc::serialize_one(&c.refbox))];
